@@ -88,12 +88,13 @@ class MustFacts:
     at(b, i) -> set of facts holding immediately before element i of block b;
     out(b, succ_index) -> facts on that edge."""
 
-    def __init__(self, cfg, gen=rel_facts, kills=elem_kills, extra_gen=None, call_kills=None):
+    def __init__(self, cfg, gen=rel_facts, kills=elem_kills, extra_gen=None, call_kills=None, closure=None):
         self.cfg = cfg
         self.gen = gen
         self.kills = kills
         self.extra_gen = extra_gen  # (elem) -> set of facts generated after elem
         self.call_kills = call_kills
+        self.closure = closure
         self.IN = {}
         self._solve()
 
@@ -129,9 +130,13 @@ class MustFacts:
                 # applied by _transfer (it is the last element); facts generated
                 # from it are about the state after evaluation only if the
                 # condition does not modify its own operands
-                ks = self.kills(c)
+                # (assignments and pre-inc/dec inside the condition yield the value that is
+                # tested; only post-inc/dec leave the operand different from the tested value)
+                ks = {lv(l) for l, kind, n in writes(c) if kind == "incdec" and n["op"].startswith("post")}
                 g = {x for x in g if not fact_killed(x, ks)}
                 f |= g
+            if self.closure:
+                f = self.closure(f)
             res.append(f)
         return res
 
